@@ -12,7 +12,7 @@ import prelude as P
 NAME = 'enum_certs'
 BACKEND = 'enum'
 CR = 'crates/anemo/src/crypto.rs'
-COVER = {'server_cert_verifier': [0, 1], 'client_cert_verifier': [0, 1], 'pinned_server_cert_verifier': [0, 1]}
+COVER = {'server_cert_verifier': [0, 1], 'client_cert_verifier': [0, 1], 'pinned_server_cert_verifier': [0, 1], 'handshake_signature_history': [0, 1, 2]}
 
 PRELUDE = r'''// GENERATED on every run by /verif/vc from /repo's working tree -- do not edit
 #![allow(dead_code, unused, non_upper_case_globals, non_camel_case_types)]
@@ -27,6 +27,7 @@ impl From<Error> for AsStdError { fn from(e: Error) -> Self { AsStdError(e) } }
 // ---- the certificate model -------------------------------------------------------------------------------------------
 pub const NAMES: [&str; 3] = ["net", "alt", "other"];
 #[derive(Clone, Debug, PartialEq)]
+#[repr(C)]
 pub struct CertificateDer<'a> {
     pub key: u8,            // subject public key
     pub signed_by: u8,      // the key its signature verifies under (== key: self-signed)
@@ -37,6 +38,9 @@ pub struct CertificateDer<'a> {
     pub names: u8,          // bit i: valid for NAMES[i]
     pub p: PhantomData<&'a ()>,
 }
+// the certificate's bytes: the seven one-byte fields above, in declaration order (repr(C), no padding)
+impl<'a> AsRef<[u8]> for CertificateDer<'a> { fn as_ref(&self) -> &[u8] { unsafe { std::slice::from_raw_parts(self as *const Self as *const u8, 7) } } }
+impl<'a> std::ops::Deref for CertificateDer<'a> { type Target = [u8]; fn deref(&self) -> &[u8] { self.as_ref() } }
 #[derive(Clone, Copy, Debug)] pub struct UnixTime;
 pub struct DnsName<'a>(pub &'a str);
 impl<'a> AsRef<str> for DnsName<'a> { fn as_ref(&self) -> &str { self.0 } }
@@ -57,8 +61,36 @@ pub mod rustls {
     use super::*;
     #[derive(Debug)] pub struct OtherError(pub Arc<AsStdError>);
     #[derive(Debug)] pub enum CertificateError { BadEncoding, BadSignature, Other(OtherError) }
-    #[derive(Debug)] pub enum Error { InvalidCertificate(CertificateError), UnsupportedNameType, General(String) }
+    #[derive(Debug)] pub enum Error { InvalidCertificate(CertificateError), UnsupportedNameType, General(String), PeerMisbehaved }
+    // ---- handshake signatures (CertificateVerify): `signer` is the private key that made the signature, `over` the transcript it was made over
+    #[derive(Clone, Copy, PartialEq, Eq, Debug)] pub enum SignatureScheme { ED25519, ECDSA_NISTP256_SHA256 }
+    #[derive(Clone, Debug)] pub struct DigitallySignedStruct { pub scheme: SignatureScheme, pub signer: u8, pub over: u8 }
+    #[derive(Clone, Debug)] pub struct DistinguishedName;
+    pub mod client { pub mod danger { #[derive(Debug)] pub struct HandshakeSignatureValid(()); impl HandshakeSignatureValid { pub fn assertion() -> Self { HandshakeSignatureValid(()) } }
+        pub use super::super::super::{ServerCertVerified, ServerCertVerifier}; } }
+    pub mod server { pub mod danger { pub use super::super::super::{ClientCertVerified, ClientCertVerifier}; } }
+    pub mod pki_types { pub use super::super::{CertificateDer, ServerName, UnixTime, TrustAnchor, SignatureVerificationAlgorithm}; }
+    pub mod crypto {
+        use super::*; use super::client::danger::HandshakeSignatureValid;
+        pub struct WebPkiSupportedAlgorithms { pub all: &'static [&'static dyn SignatureVerificationAlgorithm], pub mapping: &'static [(SignatureScheme, &'static [&'static dyn SignatureVerificationAlgorithm])] }
+        impl WebPkiSupportedAlgorithms { pub fn supported_schemes(&self) -> Vec<SignatureScheme> { self.mapping.iter().map(|m| m.0).collect() } }
+        // the model of rustls' check: the scheme must be one the caller's table maps to an algorithm fitting the certificate's key, and the signature must
+        // have been made by the certificate's private key over exactly this handshake's transcript
+        fn verify(message: &[u8], cert: &CertificateDer, dss: &DigitallySignedStruct, algs: &WebPkiSupportedAlgorithms) -> Result<HandshakeSignatureValid, Error> {
+            unsafe { SIG_CALLS += 1; }
+            if !cert.well_formed { return Err(Error::InvalidCertificate(CertificateError::BadEncoding)); }
+            let possible = algs.mapping.iter().find(|m| m.0 == dss.scheme).ok_or(Error::PeerMisbehaved)?.1;
+            let scheme_alg = match dss.scheme { SignatureScheme::ED25519 => AlgId::Ed25519, SignatureScheme::ECDSA_NISTP256_SHA256 => AlgId::EcdsaP256 };
+            if !possible.iter().any(|a| a.id() == cert.alg && a.id() == scheme_alg) { return Err(Error::InvalidCertificate(CertificateError::BadSignature)); }
+            if dss.signer != cert.key || message.first() != Some(&dss.over) { return Err(Error::InvalidCertificate(CertificateError::BadSignature)); }
+            Ok(HandshakeSignatureValid::assertion())
+        }
+        pub fn verify_tls12_signature(message: &[u8], cert: &CertificateDer, dss: &DigitallySignedStruct, algs: &WebPkiSupportedAlgorithms) -> Result<HandshakeSignatureValid, Error> { verify(message, cert, dss, algs) }
+        pub fn verify_tls13_signature(message: &[u8], cert: &CertificateDer, dss: &DigitallySignedStruct, algs: &WebPkiSupportedAlgorithms) -> Result<HandshakeSignatureValid, Error> { verify(message, cert, dss, algs) }
+    }
 }
+pub use rustls::crypto::WebPkiSupportedAlgorithms;
+pub static mut SIG_CALLS: u32 = 0;
 pub mod webpki {
     use super::*;
     pub mod ring { use super::super::*; pub static ED25519: &dyn SignatureVerificationAlgorithm = &AlgObj(AlgId::Ed25519); pub static ECDSA_P256_SHA256: &dyn SignatureVerificationAlgorithm = &AlgObj(AlgId::EcdsaP256); }
@@ -105,8 +137,18 @@ pub static mut NAME_CHECKS: u32 = 0;
 pub fn peer_id_from_certificate(certificate: &CertificateDer) -> Result<PeerId, rustls::Error> {
     if certificate.well_formed { Ok(PeerId([certificate.key; 32])) } else { Err(rustls::Error::InvalidCertificate(rustls::CertificateError::BadEncoding)) }
 }
-pub trait ServerCertVerifier { fn verify_server_cert(&self, end_entity: &CertificateDer<'_>, intermediates: &[CertificateDer<'_>], server_name: &ServerName, ocsp_response: &[u8], now: UnixTime) -> Result<ServerCertVerified, rustls::Error>; }
-pub trait ClientCertVerifier { fn verify_client_cert(&self, end_entity: &CertificateDer, intermediates: &[CertificateDer], now: UnixTime) -> Result<ClientCertVerified, rustls::Error>; }
+pub trait ServerCertVerifier {
+    fn verify_server_cert(&self, end_entity: &CertificateDer<'_>, intermediates: &[CertificateDer<'_>], server_name: &ServerName, ocsp_response: &[u8], now: UnixTime) -> Result<ServerCertVerified, rustls::Error>;
+    fn verify_tls12_signature(&self, message: &[u8], cert: &CertificateDer<'_>, dss: &rustls::DigitallySignedStruct) -> Result<rustls::client::danger::HandshakeSignatureValid, rustls::Error>;
+    fn verify_tls13_signature(&self, message: &[u8], cert: &CertificateDer<'_>, dss: &rustls::DigitallySignedStruct) -> Result<rustls::client::danger::HandshakeSignatureValid, rustls::Error>;
+    fn supported_verify_schemes(&self) -> Vec<rustls::SignatureScheme>;
+}
+pub trait ClientCertVerifier {
+    fn verify_client_cert(&self, end_entity: &CertificateDer, intermediates: &[CertificateDer], now: UnixTime) -> Result<ClientCertVerified, rustls::Error>;
+    fn verify_tls12_signature(&self, message: &[u8], cert: &CertificateDer<'_>, dss: &rustls::DigitallySignedStruct) -> Result<rustls::client::danger::HandshakeSignatureValid, rustls::Error>;
+    fn verify_tls13_signature(&self, message: &[u8], cert: &CertificateDer<'_>, dss: &rustls::DigitallySignedStruct) -> Result<rustls::client::danger::HandshakeSignatureValid, rustls::Error>;
+    fn supported_verify_schemes(&self) -> Vec<rustls::SignatureScheme>;
+}
 '''
 
 HARNESS = r'''
@@ -144,7 +186,7 @@ pub fn main() {
     if args.len() == 4 && args[1] == "--replay" {
         let choices: Vec<(u32, u32)> = args[3].split(',').filter(|s| !s.is_empty()).map(|s| (s.trim().parse().unwrap(), u32::MAX)).collect();
         let mut ch = Chooser { path: choices, pos: 0 };
-        match args[2].as_str() { "client_cert_verifier" => harness::client_cert_verifier(&mut ch), "pinned_server_cert_verifier" => harness::pinned_server_cert_verifier(&mut ch), _ => harness::server_cert_verifier(&mut ch) }
+        match args[2].as_str() { "client_cert_verifier" => harness::client_cert_verifier(&mut ch), "pinned_server_cert_verifier" => harness::pinned_server_cert_verifier(&mut ch), "handshake_signature_history" => harness::handshake_signature_history(&mut ch), _ => harness::server_cert_verifier(&mut ch) }
         println!("no assertion failed for this choice sequence");
         return;
     }
@@ -152,6 +194,7 @@ pub fn main() {
     run_all("server_cert_verifier", harness::server_cert_verifier);
     run_all("client_cert_verifier", harness::client_cert_verifier);
     run_all("pinned_server_cert_verifier", harness::pinned_server_cert_verifier);
+    run_all("handshake_signature_history", harness::handshake_signature_history);
 }
 pub mod harness {
     use super::*;
@@ -196,6 +239,38 @@ pub mod harness {
         let r = v.verify_server_cert(&cert, &extra, &server_name, &[], UnixTime);
         assert!(r.is_ok() == want, "the pinning verifier accepted a certificate the statement refuses, or refused one it accepts");
     }
+    pub const SIG_HISTORY_STEPS: usize = 2;
+    pub fn handshake_signature_history(ch: &mut Chooser) { // @EOBL [C01,C03] @BOUNDED the six real verify_tls1{2,3}_signature impls and supported_verify_schemes (listener-side CertVerifier, dialer-side CertVerifier, pinning ExpectedCertVerifier) on the model of rustls' handshake-signature check, for every HISTORY of SIG_HISTORY_STEPS verifications in one process (the thorough tier: 3, by one verifier), each with any certificate (key 1|2, Ed25519|ECDSA, well-formed or not) and any signature (scheme ED25519|ECDSA, made by key 1|2|3, over this handshake's transcript or another): a verification succeeds iff the certificate is a well-formed Ed25519 certificate, the scheme is ED25519 and the signature was made by the certificate's OWN private key over THIS handshake's transcript -- whatever was verified before (no certificate is ever remembered as already proved); the schemes offered are exactly [ED25519]; never a panic
+        let same = SIG_HISTORY_STEPS > 2;
+        let mut which = ch.below(3);
+        let mut seen: Vec<(u8, bool)> = Vec::new();
+        for step in 0..SIG_HISTORY_STEPS {
+            if step > 0 && !same { which = ch.below(3); }
+            let tls13 = ch.any_bool();
+            let cert = CertificateDer { key: 1 + ch.below(2) as u8, signed_by: 0, alg: if ch.any_bool() { AlgId::Ed25519 } else { AlgId::EcdsaP256 }, well_formed: ch.any_bool(), validity: 0, eku: 0, names: 1, p: PhantomData };
+            let cert = CertificateDer { signed_by: cert.key, ..cert };
+            let transcript = [7u8 + step as u8, 0, 0];
+            let dss = rustls::DigitallySignedStruct { scheme: if ch.any_bool() { rustls::SignatureScheme::ED25519 } else { rustls::SignatureScheme::ECDSA_NISTP256_SHA256 },
+                                                      signer: 1 + ch.below(3) as u8, over: if ch.any_bool() { transcript[0] } else { 99 } };
+            let want = cert.well_formed && cert.alg == AlgId::Ed25519 && dss.scheme == rustls::SignatureScheme::ED25519 && dss.signer == cert.key && dss.over == transcript[0];
+            let cv = CertVerifier { server_names: vec!["net".to_owned()] };
+            let pinned = ExpectedCertVerifier(CertVerifier { server_names: vec!["net".to_owned()] }, PeerId([1; 32]));
+            let (r, schemes) = match (which, tls13) {
+                (0, false) => (ClientCertVerifier::verify_tls12_signature(&cv, &transcript, &cert, &dss), ClientCertVerifier::supported_verify_schemes(&cv)),
+                (0, true) => (ClientCertVerifier::verify_tls13_signature(&cv, &transcript, &cert, &dss), ClientCertVerifier::supported_verify_schemes(&cv)),
+                (1, false) => (ServerCertVerifier::verify_tls12_signature(&cv, &transcript, &cert, &dss), ServerCertVerifier::supported_verify_schemes(&cv)),
+                (1, true) => (ServerCertVerifier::verify_tls13_signature(&cv, &transcript, &cert, &dss), ServerCertVerifier::supported_verify_schemes(&cv)),
+                (_, false) => (pinned.verify_tls12_signature(&transcript, &cert, &dss), pinned.supported_verify_schemes()),
+                (_, true) => (pinned.verify_tls13_signature(&transcript, &cert, &dss), pinned.supported_verify_schemes()),
+            };
+            if want { cover(0); }
+            if !want && seen.contains(&(cert.key, true)) && cert.well_formed && cert.alg == AlgId::Ed25519 { cover(1); }   // this certificate was proved earlier in the history; now the proof is missing
+            if step > 0 && want { cover(2); }
+            assert!(schemes == vec![rustls::SignatureScheme::ED25519], "the signature schemes offered to the peer are not exactly [ED25519]");
+            assert!(r.is_ok() == want, "a handshake signature was accepted without proof of the certificate's private key for this handshake, or a genuine one was refused");
+            seen.push((cert.key, r.is_ok()));
+        }
+    }
     pub fn client_cert_verifier(ch: &mut Chooser) { // @EOBL [C14,C01] @BOUNDED CertVerifier::verify_client_cert (what a listener runs on a dialer's certificate) over the same certificate model, with and without an extra certificate in the chain, listener configured for [net] or [net, alt]: accepted iff the certificate is a well-formed, currently valid, SELF-signed Ed25519 certificate permitting client authentication that is valid for at least one of the names the listener accepts; never a panic
         let v = CertVerifier { server_names: names_of(ch) };
         let cert = any_cert(ch);
@@ -214,21 +289,32 @@ def build(ctx):
     C = ctx
     C.helper_rewrites = [dict(rule='X5', pattern='anyhow::Error', repl='Error'), dict(rule='X5', pattern=r"\bCertificateDer<'\w+>", repl='CertificateDer', regex=True)] if False else [dict(rule='X5', pattern='anyhow::Error', repl='Error')]
     t = PRELUDE
+
+    def sigs(impl, label):
+        return ''.join(C.fn(CR, '%s :: fn %s' % (impl, f), '%s::%s' % (label, f), ['C01', 'C03'], probe=False, pub=False)
+                       for f in ('verify_tls12_signature', 'verify_tls13_signature', 'supported_verify_schemes'))
     t += P.peer_types(C).replace('#[derive(Copy, Clone, Hash, PartialEq, Eq, PartialOrd, Ord)]\npub struct PeerId', '#[derive(Copy, Clone, Hash, PartialEq, Eq, PartialOrd, Ord, Debug)]\npub struct PeerId')
     t += C.item(CR, 'static SUPPORTED_SIG_ALGS')
+    t += C.item(CR, 'static SUPPORTED_ALGORITHMS')
     t += C.item(CR, 'struct CertVerifier', derives=False)
     t += C.item(CR, 'type CertChainAndRoots')
     t += C.fn(CR, 'fn prepare_for_self_signed', 'prepare_for_self_signed', ['C14', 'C01'], probe=False)
     t += C.fn(CR, 'fn pki_error', 'pki_error', ['C14'], probe=False)
     t += 'impl ClientCertVerifier for CertVerifier {\n'
     t += C.fn(CR, 'impl ClientCertVerifier for CertVerifier :: fn verify_client_cert', 'CertVerifier::verify_client_cert', ['C14', 'C01'], probe=False, pub=False)
+    t += sigs('impl ClientCertVerifier for CertVerifier', 'CertVerifier(client)')
     t += '}\nimpl ServerCertVerifier for CertVerifier {\n'
     t += C.fn(CR, 'impl ServerCertVerifier for CertVerifier :: fn verify_server_cert', 'CertVerifier::verify_server_cert', ['C14', 'C01'], probe=False, pub=False)
+    t += sigs('impl ServerCertVerifier for CertVerifier', 'CertVerifier(server)')
     t += '}\n'
     t += C.item(CR, 'struct ExpectedCertVerifier', derives=False)
     t += 'impl ServerCertVerifier for ExpectedCertVerifier {\n'
     t += C.fn(CR, 'impl ServerCertVerifier for ExpectedCertVerifier :: fn verify_server_cert', 'ExpectedCertVerifier::verify_server_cert', ['C14', 'C03', 'C01'], probe=False, pub=False)
+    t += sigs('impl ServerCertVerifier for ExpectedCertVerifier', 'ExpectedCertVerifier')
     t += '}\n'
     t += C.helpers_here()
-    t += HARNESS
+    h = HARNESS
+    if getattr(C, 'tier', 'quick') == 'thorough':
+        h = h.replace('pub const SIG_HISTORY_STEPS: usize = 2;', 'pub const SIG_HISTORY_STEPS: usize = 3;')
+    t += h
     return t
